@@ -1,0 +1,75 @@
+//go:build verif
+
+package semantic
+
+// Contracts for the semantic checker and resolver (properties C04, C05). Comment-only file, read by /verif/engine (govc).
+
+// ---- well-formedness of ASTs handed to the checker (what the parser produces: no nil entries) ----
+
+//@ pure func wfFields(fs []*parser.Field) bool { return forall i int :: 0 <= i && i < len(fs) ==> fs[i] != nil }
+//@ pure func wfSL(s *parser.StructLike) bool { return s != nil && wfFields(s.Fields) }
+//@ pure func wfSLs(ss []*parser.StructLike) bool { return forall i int :: 0 <= i && i < len(ss) ==> wfSL(ss[i]) }
+//@ pure func wfEnum(e *parser.Enum) bool { return e != nil && forall i int :: 0 <= i && i < len(e.Values) ==> e.Values[i] != nil }
+//@ pure func wfFunc(f *parser.Function) bool { return f != nil && wfFields(f.Arguments) && wfFields(f.Throws) }
+//@ pure func wfSvc(s *parser.Service) bool { return s != nil && forall i int :: 0 <= i && i < len(s.Functions) ==> wfFunc(s.Functions[i]) }
+//@ pure func wfThrift(t *parser.Thrift) bool { return t != nil && wfSLs(t.Structs) && wfSLs(t.Unions) && wfSLs(t.Exceptions) && (forall i int :: 0 <= i && i < len(t.Enums) ==> wfEnum(t.Enums[i])) && (forall i int :: 0 <= i && i < len(t.Services) ==> wfSvc(t.Services[i])) && (forall i int :: 0 <= i && i < len(t.Typedefs) ==> t.Typedefs[i] != nil) && (forall i int :: 0 <= i && i < len(t.Constants) ==> t.Constants[i] != nil) }
+
+// ---- the rules (C04 statement) ----
+
+//@ pure func distinctFields(s *parser.StructLike) bool { return forall a, b int :: 0 <= a && a < b && b < len(s.Fields) ==> s.Fields[a].ID != s.Fields[b].ID && s.Fields[a].Name != s.Fields[b].Name }
+//@ pure func atMostOneDefault(u *parser.StructLike) bool { return forall a, b int :: 0 <= a && a < b && b < len(u.Fields) ==> !(u.Fields[a].Default != nil && u.Fields[b].Default != nil) }
+//@ pure func enumOK(e *parser.Enum) bool { return (forall a, b int :: 0 <= a && a < b && b < len(e.Values) ==> e.Values[a].Name != e.Values[b].Name && e.Values[a].Value != e.Values[b].Value) && (forall a int :: 0 <= a && a < len(e.Values) ==> -2147483648 <= e.Values[a].Value && e.Values[a].Value <= 2147483647) }
+//@ pure func funcOK(f *parser.Function) bool { return (f.Oneway ==> f.Void && len(f.Throws) == 0) }
+//@ pure func svcOK(s *parser.Service) bool { return (forall a, b int :: 0 <= a && a < b && b < len(s.Functions) ==> s.Functions[a].Name != s.Functions[b].Name) && (forall a int :: 0 <= a && a < len(s.Functions) ==> funcOK(s.Functions[a])) }
+
+//@ func (c *checker) CheckStructLikes(t *parser.Thrift) (warns []string, err error)
+//@   requires wfThrift(t)
+//@   ensures err == nil ==> forall i int :: 0 <= i && i < len(t.Structs) ==> distinctFields(t.Structs[i])
+//@   ensures err == nil ==> forall i int :: 0 <= i && i < len(t.Unions) ==> distinctFields(t.Unions[i])
+//@   ensures err == nil ==> forall i int :: 0 <= i && i < len(t.Exceptions) ==> distinctFields(t.Exceptions[i])
+//@   loop 1 invariant err == nil
+//@   loop 1 invariant forall k int :: 0 <= k && k < len(t.Structs) && k < $i ==> distinctFields(t.Structs[k])
+//@   loop 1 invariant forall k int :: 0 <= k && k < len(t.Unions) && len(t.Structs) + k < $i ==> distinctFields(t.Unions[k])
+//@   loop 1 invariant forall k int :: 0 <= k && k < len(t.Exceptions) && len(t.Structs) + len(t.Unions) + k < $i ==> distinctFields(t.Exceptions[k])
+//@   loop 1 invariant len($xs) == len(t.Structs) + len(t.Unions) + len(t.Exceptions)
+//@   loop 1.1 invariant err == nil
+//@   loop 1.1 invariant forall k int :: 0 <= k && k < $i ==> fieldIDs[s.Fields[k].ID] && names[s.Fields[k].Name]
+//@   loop 1.1 invariant forall x int32 :: fieldIDs[x] ==> exists k int :: 0 <= k && k < $i && s.Fields[k].ID == x
+//@   loop 1.1 invariant forall n string :: names[n] ==> exists k int :: 0 <= k && k < $i && s.Fields[k].Name == n
+//@   loop 1.1 invariant forall a, b int :: 0 <= a && a < b && b < $i ==> s.Fields[a].ID != s.Fields[b].ID && s.Fields[a].Name != s.Fields[b].Name
+
+//@ func (c *checker) CheckUnions(t *parser.Thrift) (warns []string, err error)
+//@   requires wfThrift(t) && c != nil
+//@   ensures err == nil ==> forall i int :: 0 <= i && i < len(t.Unions) ==> atMostOneDefault(t.Unions[i])
+//@   modifies parser.Field.Requiredness
+//@   loop 1 invariant err == nil
+//@   loop 1 invariant forall k int :: 0 <= k && k < $i ==> atMostOneDefault(t.Unions[k])
+//@   loop 1.1 invariant err == nil
+//@   loop 1.1 invariant hasDefault == (exists k int :: 0 <= k && k < $i && u.Fields[k].Default != nil)
+//@   loop 1.1 invariant forall a, b int :: 0 <= a && a < b && b < $i ==> !(u.Fields[a].Default != nil && u.Fields[b].Default != nil)
+
+//@ func (c *checker) CheckEnums(t *parser.Thrift) (warns []string, err error)
+//@   requires wfThrift(t)
+//@   ensures err == nil ==> forall i int :: 0 <= i && i < len(t.Enums) ==> enumOK(t.Enums[i])
+//@   loop 1 invariant err == nil
+//@   loop 1 invariant forall k int :: 0 <= k && k < $i ==> enumOK(t.Enums[k])
+//@   loop 1.1 invariant err == nil
+//@   loop 1.1 invariant forall k int :: 0 <= k && k < $i ==> exist[e.Values[k].Name] && inDom(v2n, e.Values[k].Value)
+//@   loop 1.1 invariant forall n string :: exist[n] ==> exists k int :: 0 <= k && k < $i && e.Values[k].Name == n
+//@   loop 1.1 invariant forall x int64 :: inDom(v2n, x) ==> exists k int :: 0 <= k && k < $i && e.Values[k].Value == x && v2n[x] == e.Values[k].Name
+//@   loop 1.1 invariant forall a, b int :: 0 <= a && a < b && b < $i ==> e.Values[a].Name != e.Values[b].Name && e.Values[a].Value != e.Values[b].Value
+//@   loop 1.1 invariant forall a int :: 0 <= a && a < $i ==> -2147483648 <= e.Values[a].Value && e.Values[a].Value <= 2147483647
+
+//@ func (c *checker) CheckFunctions(t *parser.Thrift) (warns []string, err error)
+//@   requires wfThrift(t) && c != nil
+//@   ensures err == nil ==> forall i int :: 0 <= i && i < len(t.Services) ==> svcOK(t.Services[i])
+//@   modifies parser.Field.Requiredness
+//@   loop 1 invariant err == nil
+//@   loop 1 invariant forall k int :: 0 <= k && k < $i ==> svcOK(t.Services[k])
+//@   loop 1.1 invariant err == nil
+//@   loop 1.1 invariant forall k int :: 0 <= k && k < $i ==> defined[svc.Functions[k].Name]
+//@   loop 1.1 invariant forall n string :: defined[n] ==> exists k int :: 0 <= k && k < $i && svc.Functions[k].Name == n
+//@   loop 1.1 invariant forall a, b int :: 0 <= a && a < b && b < $i ==> svc.Functions[a].Name != svc.Functions[b].Name
+//@   loop 1.1 invariant forall a int :: 0 <= a && a < $i ==> funcOK(svc.Functions[a])
+//@   loop 1.1.1 invariant err == nil
+//@   loop 1.1.2 invariant err == nil
